@@ -34,8 +34,13 @@ VARIABLES doc0,          \* the document the user supplied
           twin,
           props,         \* abstract result of the reference propagation on d1, d2, ...
           simParams, sim0, simEntry, saved,
-          lib            \* the equipment library object shared by every design of the process: [power |-> SI power_dbm]
-vars == <<doc0, doc, cfg, pc, round, carry, rgain, exports, twin, props, simParams, sim0, simEntry, saved, lib>>
+          lib,           \* the equipment library object shared by every design of the process: [power |-> SI power_dbm]
+          proc,          \* what the process did before: "fresh" | "used" (other designs, possibly with another library whose
+                         \* amplifiers have the same names); no action of a design reads it
+          effective,     \* effective gains of the last propagation (saturation may reduce them below the set gains in doc)
+          reexport       \* export of the designed network taken again after it carried a propagation
+vars == <<doc0, doc, cfg, pc, round, carry, rgain, exports, twin, props, simParams, sim0, simEntry, saved, lib, proc,
+          effective, reexport>>
 
 Temp == [flag |-> TRUE, method |-> "perturbative", order |-> 2, resultRes |-> 50000, solverRes |-> 100,
          nli |-> "gn_model_analytic", cc |-> <<NONE>>, ncc |-> NONE]       \* SimParams.set_params(sim_params) of the estimate
@@ -69,13 +74,14 @@ Init == /\ doc0 \in Docs /\ cfg \in Cfgs /\ simParams \in Sims
         /\ pc = "fibre" /\ round = 0 /\ carry = 0 /\ rgain = 0
         /\ exports = <<>> /\ twin = NoDoc /\ props = <<>>
         /\ lib = [power |-> LibPower]
+        /\ proc \in {"fresh", "used"} /\ effective = <<0, 0>> /\ reexport = NoDoc
 
 CompleteFibre ==
     /\ pc = "fibre"
     /\ doc' = [doc EXCEPT !.conOut = (IF @ = NONE THEN DefaultConOut ELSE @) + (IF doc.aged THEN 0 ELSE cfg.eol),
                           !.aged = TRUE]
     /\ pc' = "pad" /\ simEntry' = simParams
-    /\ UNCHANGED <<doc0, cfg, round, carry, rgain, exports, twin, props, simParams, sim0, saved, lib>>
+    /\ UNCHANGED <<doc0, cfg, round, carry, rgain, exports, twin, props, simParams, sim0, saved, lib, proc, effective, reexport>>
 
 Pad ==
     /\ pc = "pad"
@@ -83,31 +89,31 @@ Pad ==
               THEN [doc EXCEPT !.attIn = @ + cfg.padding - BaseLoss(doc)] ELSE doc
     /\ pc' = IF doc.raman THEN "rsave" ELSE "amp1"
     /\ rgain' = 0
-    /\ UNCHANGED <<doc0, cfg, round, carry, exports, twin, props, simParams, sim0, simEntry, saved, lib>>
+    /\ UNCHANGED <<doc0, cfg, round, carry, exports, twin, props, simParams, sim0, simEntry, saved, lib, proc, effective, reexport>>
 
 \* estimate_raman_gain, network.py:313-325
 RamanSave    == pc = "rsave"    /\ saved' = simParams /\ pc' = "rtemp"
-                /\ UNCHANGED <<doc0, doc, cfg, round, carry, rgain, exports, twin, props, simParams, sim0, simEntry, lib>>
+                /\ UNCHANGED <<doc0, doc, cfg, round, carry, rgain, exports, twin, props, simParams, sim0, simEntry, lib, proc, effective, reexport>>
 RamanSetTemp == pc = "rtemp"    /\ simParams' = Temp /\ pc' = "rsolve"
-                /\ UNCHANGED <<doc0, doc, cfg, round, carry, rgain, exports, twin, props, sim0, simEntry, saved, lib>>
+                /\ UNCHANGED <<doc0, doc, cfg, round, carry, rgain, exports, twin, props, sim0, simEntry, saved, lib, proc, effective, reexport>>
 RamanSolve   == pc = "rsolve"   /\ rgain' = (IF simParams.flag THEN 5 ELSE 0) /\ pc' = "rrestore"
-                /\ UNCHANGED <<doc0, doc, cfg, round, carry, exports, twin, props, simParams, sim0, simEntry, saved, lib>>
+                /\ UNCHANGED <<doc0, doc, cfg, round, carry, exports, twin, props, simParams, sim0, simEntry, saved, lib, proc, effective, reexport>>
 RamanRestore == pc = "rrestore" /\ simParams' = saved /\ pc' = "amp1"
-                /\ UNCHANGED <<doc0, doc, cfg, round, carry, rgain, exports, twin, props, sim0, simEntry, saved, lib>>
+                /\ UNCHANGED <<doc0, doc, cfg, round, carry, rgain, exports, twin, props, sim0, simEntry, saved, lib, proc, effective, reexport>>
 
 SetAmp1 ==
     /\ pc = "amp1"
     /\ LET r == AmpDesign(doc.amps[1], 0, 0, BaseLoss(doc) - rgain)
        IN doc' = [doc EXCEPT !.amps[1] = r.amp] /\ carry' = r.net
     /\ pc' = "amp2"
-    /\ UNCHANGED <<doc0, cfg, round, rgain, exports, twin, props, simParams, sim0, simEntry, saved, lib>>
+    /\ UNCHANGED <<doc0, cfg, round, rgain, exports, twin, props, simParams, sim0, simEntry, saved, lib, proc, effective, reexport>>
 
 SetAmp2 ==
     /\ pc = "amp2"
     /\ LET r == AmpDesign(doc.amps[2], BaseLoss(doc) - rgain, carry, 0)
        IN doc' = [doc EXCEPT !.amps[2] = r.amp] /\ carry' = r.net
     /\ pc' = "designed"
-    /\ UNCHANGED <<doc0, cfg, round, rgain, exports, twin, props, simParams, sim0, simEntry, saved, lib>>
+    /\ UNCHANGED <<doc0, cfg, round, rgain, exports, twin, props, simParams, sim0, simEntry, saved, lib, proc, effective, reexport>>
 
 Exported(d) == [d EXCEPT !.amps = [k \in 1..2 |-> [d.amps[k] EXCEPT !.gain = RoundTo(@)]]]
 Propagation(d) == d.amps[1].gain + d.amps[2].gain - BaseLoss(d) + rgain
@@ -117,15 +123,24 @@ Export ==
     /\ IF round = 1 THEN twin' = Exported(doc) /\ UNCHANGED <<exports, props>>
        ELSE exports' = Append(exports, Exported(doc)) /\ props' = Append(props, Propagation(doc)) /\ UNCHANGED twin
     /\ pc' = "exported"
-    /\ UNCHANGED <<doc0, doc, cfg, round, carry, rgain, simParams, sim0, simEntry, saved, lib>>
+    /\ UNCHANGED <<doc0, doc, cfg, round, carry, rgain, simParams, sim0, simEntry, saved, lib, proc, effective, reexport>>
+
+\* the reference propagation runs on the designed network: an amplifier driven into saturation works at a lower effective
+\* gain, the gain that was set stays what it is; saving the network again gives the same document
+SatLimit == 17
+PropagateAndReexport ==
+    /\ pc = "exported" /\ round = 0 /\ reexport = NoDoc
+    /\ effective' = [k \in 1..2 |-> MinI(doc.amps[k].gain, SatLimit)]
+    /\ reexport' = Exported(doc)
+    /\ UNCHANGED <<doc0, doc, cfg, pc, round, carry, rgain, exports, twin, props, simParams, sim0, simEntry, saved, lib, proc>>
 
 \* designed_network(lib, another network, args_power = p): the reference power of THAT design is p; the library is an
 \* input of the call and stays as it is
 DesignElsewhere ==
-    /\ pc = "exported" /\ round = 0 /\ twin = NoDoc
+    /\ pc = "exported" /\ round = 0 /\ twin = NoDoc /\ reexport # NoDoc
     /\ \E p \in {LibPower + 3} : lib' = lib
-    /\ pc' = "elsewhere"
-    /\ UNCHANGED <<doc0, doc, cfg, round, carry, rgain, exports, twin, props, simParams, sim0, simEntry, saved>>
+    /\ pc' = "elsewhere" /\ proc' = "used"
+    /\ UNCHANGED <<doc0, doc, cfg, round, carry, rgain, exports, twin, props, simParams, sim0, simEntry, saved, effective, reexport>>
 
 \* round 0 -> design the user's input once more (fresh load of the same file); later -> load the last export
 Load ==
@@ -134,9 +149,9 @@ Load ==
        ELSE /\ doc' = IF round = 0 THEN doc0 ELSE exports[Len(exports)]
             /\ round' = round + 1 /\ pc' = "fibre"
     /\ carry' = 0
-    /\ UNCHANGED <<doc0, cfg, rgain, exports, twin, props, simParams, sim0, simEntry, saved, lib>>
+    /\ UNCHANGED <<doc0, cfg, rgain, exports, twin, props, simParams, sim0, simEntry, saved, lib, proc, effective, reexport>>
 
-Next == DesignElsewhere \/ CompleteFibre \/ Pad \/ RamanSave \/ RamanSetTemp \/ RamanSolve \/ RamanRestore \/ SetAmp1 \/ SetAmp2
+Next == PropagateAndReexport \/ DesignElsewhere \/ CompleteFibre \/ Pad \/ RamanSave \/ RamanSetTemp \/ RamanSolve \/ RamanRestore \/ SetAmp1 \/ SetAmp2
         \/ Export \/ Load
 Spec == Init /\ [][Next]_vars
 
@@ -156,6 +171,8 @@ DesignLeavesSimParams == pc \in {"designed", "exported", "elsewhere", "end"} => 
 \* ... and they only ever differ from the initial setting inside estimate_raman_gain, between SetTemp and Restore
 SimParamsOnlyTemporarilyChanged == pc \notin {"rsolve", "rrestore"} => simParams = sim0
 DesignAsAWholeKeepsSimParams == [][pc' = "designed" => simParams' = simEntry]_vars
+\* saving a designed network after it has been used for a propagation gives the same document
+ExportUnaffectedByPropagation == reexport # NoDoc => reexport = exports[1]
 \* the equipment library is an input: no design changes it
 LibraryUnchanged == lib = [power |-> LibPower]
 \* design settles every setting
